@@ -247,4 +247,4 @@ def run(ctx, res):
                 res.fail("T-SLOTS", inst, "T-SLOTS|%s|%s" % (kind, s), f.loc(),
                          "%s_open returns a device without checking that its %s slot is non-NULL; the wrapper calls it unconditionally" % (kind.lower(), s))
     res.require_min("HAL-WRAPPER", 17)
-    res.require_min("T-SLOTS", 16)
+    res.require_min("T-SLOTS", 12)
